@@ -1,0 +1,18 @@
+//go:build verif
+
+package nonprod
+
+import (
+	"context"
+
+	"github.com/google/gce-tcb-verifier/cmd"
+	"github.com/spf13/cobra"
+)
+
+// VerifNewRootCmd returns a fresh instance of the shipped non-production CLI: the same wiring as
+// RootCmd (localkm key manager, localca certificate authority, local storage). A cobra command keeps
+// the values of its flags (the --timestamp flag refuses to be set twice), so the verification harness
+// needs a new instance for every command line it runs in-process.
+func VerifNewRootCmd() *cobra.Command {
+	return cmd.MakeApp(context.Background(), localApp())
+}
